@@ -166,7 +166,7 @@ def encode_inventory(ctx, rep):
             if r34 and all(i["ok"] for i in r34):
                 return "index 0 of the frame buffer, which holds at least the placeholder byte written first (R3.4 placeholder / order / patch-at-0)"
             return None
-        if s["fn"] == "insim_core::duration::binrw_write_duration" and s["kind"] == "assert" and s["what"] == "div_zero":
+        if panics.is_or_helper_of(ctx.mir, s["fn"], "insim_core::duration::binrw_write_duration", generic="SCALE") and s["kind"] == "assert" and s["what"] == "div_zero":
             scales = {sc for (_t, sc) in inst}
             if scales and all(sc.isdigit() and int(sc) > 0 for sc in scales):
                 return "`/ SCALE`: every instantiation uses a non-zero scale %s" % sorted(scales)
